@@ -1210,6 +1210,18 @@ func runC09(args []string) error {
 			if err := json.Unmarshal(c, &x); err != nil {
 				return err
 			}
+			if x.Kind == "failseek" || x.Kind == "failget" {
+				var y struct {
+					Input c09FInput `json:"input"`
+				}
+				if err := json.Unmarshal(c, &y); err != nil {
+					return err
+				}
+				if err := c09RunFailCase(co, y.Input, x.Kind, dir, i); err != nil {
+					return err
+				}
+				continue
+			}
 			if x.Kind == "sched2" {
 				var y struct {
 					Input c09SInput `json:"input"`
@@ -1340,6 +1352,12 @@ func runC09(args []string) error {
 		ops, q := c09GenSched2(r)
 		if err := c09RunSched2(co, c09SInput{Backend: backends[i%3], Ops: ops, Q: q}, dir, 9*cf.n+i); err != nil {
 			return fmt.Errorf("two-layer schedule %d: %w", i, err)
+		}
+	}
+	// flushes that fail: the error branch of persist, with writes interleaved while the flush is blocked
+	for i := 0; i < fam; i++ {
+		if err := c09GenFailRun(co, r, backends[i%3], dir, 13*cf.n+i); err != nil {
+			return fmt.Errorf("failing-flush run %d: %w", i, err)
 		}
 	}
 	co.extra["x_backends"] = c09PerBackend
